@@ -443,6 +443,7 @@ type FuncSpec struct {
 	Pure      bool // modifies nothing and result is a function of args+heap (trusted/extern use)
 	MayPanic  bool // explicit panics are part of the contract (not an obligation)
 	KFs       []KFAssume
+	SiteKFs   map[string][]KFAssume
 	Asserts   map[string][]*SExpr // site key -> assertions
 	File      string
 	Line      int
@@ -520,6 +521,13 @@ func parseContractFile(path, pkgPath string) (*ContractFile, error) {
 			}
 			cf.Funcs = append(cf.Funcs, cur)
 		case "pure":
+			if !strings.HasPrefix(rest, "func") {
+				if cur == nil {
+					return nil, fail(fmt.Errorf("clause pure outside func"))
+				}
+				cur.Pure = true
+				continue
+			}
 			pf, err := parsePureFunc(rest)
 			if err != nil {
 				return nil, fail(err)
@@ -661,10 +669,27 @@ func parseClause(f *FuncSpec, word, rest string) error {
 		}
 		f.KFs = append(f.KFs, KFAssume{id, e})
 	case "site":
-		key, r2 := splitWord(rest)
-		w, r3 := splitWord(r2)
-		if w != "assert" {
-			return fmt.Errorf("site: expected assert")
+		// site <kind>:<text up to " assert"/" assume-known-finding"> ...   e.g.  site assign:fm.index[renamed] assert !inDom(...)
+		var key, w, r3 string
+		if i := strings.Index(rest, " assert "); i >= 0 {
+			key, w, r3 = strings.TrimSpace(rest[:i]), "assert", rest[i+8:]
+		} else if i := strings.Index(rest, " assume-known-finding "); i >= 0 {
+			key, w, r3 = strings.TrimSpace(rest[:i]), "kf", rest[i+22:]
+		} else {
+			return fmt.Errorf("site: expected assert or assume-known-finding")
+		}
+		if w == "kf" {
+			id, r4 := splitWord(r3)
+			id = strings.TrimSuffix(id, ":")
+			e, err := parseSpecExpr(r4)
+			if err != nil {
+				return err
+			}
+			if f.SiteKFs == nil {
+				f.SiteKFs = map[string][]KFAssume{}
+			}
+			f.SiteKFs[key] = append(f.SiteKFs[key], KFAssume{id, e})
+			return nil
 		}
 		e, err := parseSpecExpr(r3)
 		if err != nil {
